@@ -704,7 +704,7 @@ func (fx *Fx) evalComposite(st *State, x *ast.CompositeLit, spec bool) Val {
 			return Val{T: t, S: SStr, X: fx.d.strLit(s), Lit: &s}
 		}
 		ss := fx.d.sortOf(t)
-		arr := fmt.Sprintf("((as const %s) %s)", arrSort(fx.d.sortOf(u.Elem())), fx.d.zeroOf(u.Elem()))
+		arr := fx.d.constArray(fx.d.sortOf(u.Elem()), fx.d.zeroOf(u.Elem()))
 		for i, el := range x.Elts {
 			arr = app("store", arr, fmt.Sprint(i), fx.eval(st, el, spec).X)
 		}
